@@ -11,7 +11,7 @@ From Coq Require Import Lia ZArith List Bool.
 From RM Require C09.Model.
 From RM Require Import Base.Word C08.Model C08.Proofs C09.Grammar C09.Driver C09.Proofs C09.ProofsBytes
                        C09.ProofsFinish C09.ProofsFinal.
-From RM Require Import C11.Model C11.Proofs1 C11.Proofs2 C11.Proofs5 C11.Proofs7 C11.Proofs8 C11.Text C11.Text2.
+From RM Require Import C11.Model C11.Proofs1 C11.Proofs2 C11.Proofs5 C11.Proofs6 C11.Proofs7 C11.Proofs8 C11.Text C11.Text2.
 Import ListNotations.
 Open Scope Z_scope.
 
@@ -509,4 +509,33 @@ Proof.
   intros H Hlen He. destruct (from_bytes nm tg bytes sch q s H Hlen He) as (t & Ht & Hwf & Hrel & _).
   exists t. split; [exact Ht|]. intros b sz. unfold module_parsed. cbn [snd].
   exists (raw_of_pst nm tg q). split; assumption.
+Qed.
+
+(* the property's last clause, stated of the bytes: when the records of the text do not overlap, fill_symbol
+   on the table parsed from the bytes equals the linear scans over the records of the text *)
+Lemma bytes_equals_linear_scan nm tg (bytes : list Z) (sch : list Z) q s :
+  drive_c (map to_rle (fst (split_bytes bytes []))) (Z.of_nat (length (snd (split_bytes bytes [])))) sch
+    = Ret (RM.C09.Model.ROk q, s) ->
+  Z.of_nat (length bytes) < two32 - 1 -> enc_names_ok nm tg q ->
+  let rf := raw_of_pst nm tg q in
+  non_overlapping rf ->
+  exists t, finish q = Ret t /\
+  forall p mbase instr, 0 <= mbase -> mbase <= instr < two64 ->
+  exists o, fill_symbol p (symtab_of_table nm tg t) mbase instr = Ret o /\
+    match ref_func rf (instr - mbase) with
+    | Some fr => o = ref_fill_func rf (ref_psize rf fr (instr - mbase)) mbase (instr - mbase) fr
+    | None =>
+        ((forall pq, In pq (rf_publics rf) -> instr - mbase < p_addr pq) /\ o = empty_out) \/
+        (exists pb, In pb (rf_publics rf) /\ p_addr pb <= instr - mbase /\
+           (forall pq, In pq (rf_publics rf) -> p_addr pq <= instr - mbase -> Model.pub_lt pb pq = false) /\
+           let cut := exists fr, In fr (rf_funcs rf) /\ mk_range (Model.fr_addr fr) (Model.fr_size fr) <> None /\
+                                 p_addr pb <= Model.fr_addr fr <= instr - mbase in
+           ((cut /\ o = empty_out) \/
+            (~ cut /\ o = mk_out (Some (p_name pb, p_addr pb + mbase, p_psize pb)) None [])))
+    end.
+Proof.
+  intros H Hlen He rf Hno. destruct (from_bytes nm tg bytes sch q s H Hlen He) as (t & Ht & Hwf & _ & Heq).
+  exists t. split; [exact Ht|]. intros p mbase instr Hmb Hi.
+  destruct (equals_linear_scan p rf mbase instr Hwf Hno Hmb Hi) as (o & Eo & Hspec).
+  exists o. split; [|exact Hspec]. rewrite (Heq p mbase instr Hmb (proj2 Hi)). exact Eo.
 Qed.
